@@ -102,7 +102,7 @@ fn check_u32(c: &SeqCase, obs: &mut Obs) -> Verdict {
 }
 
 fn strat(tier: Tier) -> BoxedStrategy<SeqCase> {
-    let big = tier.pick(300usize, 3000);
+    let big = tier.pick(400usize, 3000);
     let alpha = || prop_oneof![Just(2u32), Just(4), Just(26), Just(1000), Just(100_000)];
     let base = move |l: usize| (alpha(), vec(0u32..100_000, l / 2..=l)).prop_map(|(k, v)| v.into_iter().map(|x| x % k).collect::<Vec<u32>>());
     let few_edits = |max: usize| vec((0u8..8, any::<u16>(), 1u8..6, 0u32..100_000), 0..=max);
@@ -132,6 +132,58 @@ fn strat(tier: Tier) -> BoxedStrategy<SeqCase> {
         1 => (base(big / 4), base(big / 4)),
         // the shared small mixture
         2 => seq_pair(60),
+        // every value occurs 1-3 times, the copies a few positions apart and interleaved with
+        // their neighbours' copies (the locally unique item keeps changing); few edits
+        2 => (big / 3..=big, vec((0u8..3, 1usize..9), 64), 0u8..3, few_edits(3)).prop_map(|(n, pat, uniform, es)| {
+            let mut slots: Vec<(usize, u32)> = vec![];
+            for i in 0..n {
+                // uniform: every value has the same number (2 or 3) of copies at the same distance
+                let (copies, dist) = if uniform == 0 { (pat[0].0.max(1), pat[0].1) } else { pat[i % pat.len()] };
+                for c in 0..=copies as usize {
+                    slots.push((2 * i + c * (2 * dist + 1), i as u32));
+                }
+            }
+            slots.sort();
+            let mut a: Vec<u32> = slots.into_iter().map(|(_, v)| v).collect();
+            // cutting a few items off the front leaves values whose first copy is gone: they are
+            // unique, but only at the very start of what remains
+            let cut = (pat[1].1 + pat[2].1) % 9;
+            a.drain(..cut.min(a.len()));
+            let b = apply_raw_edits(&a, &es);
+            (a, b)
+        }),
+        // a block, the same values rearranged, more distinct values (second occurrences far away)
+        1 => (big / 4..=big / 2, vec(any::<u16>(), 12), few_edits(2)).prop_map(|(n, cuts, es)| {
+            let mut a: Vec<u32> = (0..n as u32).collect();
+            let mut again: Vec<u32> = (0..n as u32).collect();
+            for c in cuts {
+                let p = pos(c, again.len() - 1);
+                again.rotate_left(p);
+                let q = pos(c.wrapping_mul(31), again.len() - 1);
+                again[..=q].reverse();
+            }
+            a.extend(again);
+            a.extend(n as u32..(n + n / 2) as u32);
+            let b = apply_raw_edits(&a, &es);
+            (a, b)
+        }),
+        // MANY scattered single-item edits (D in the hundreds, still <= (N+M)/16) on repetitive or
+        // random content of a few thousand items
+        1 => (prop_oneof![Just(2u32), Just(3), Just(4), Just(50), Just(100_000)], any::<bool>(), big * 3..=big * 8, 20usize..tier.pick(200, 400), vec((any::<u16>(), 0u8..3, 0u32..100_000), 400)).prop_map(|(k, periodic, n, nedits, raw)| {
+            let a: Vec<u32> = if periodic { (0..n).map(|i| (i as u32) % k.min(50)).collect() } else { lcg_seq(n as u64 + k as u64, n, k) };
+            let mut b = a.clone();
+            for (at, kind, val) in raw.into_iter().take(nedits.min(n / 16)) {
+                let p = pos(at, b.len() - 1);
+                match kind {
+                    0 => {
+                        b.remove(p);
+                    }
+                    1 => b.insert(p, val % k + 1),
+                    _ => b[p] = (b[p] + 1 + val % 2) % k.max(2),
+                }
+            }
+            (a, b)
+        }),
     ];
     (0u8..2, fam, 0u8..10)
         .prop_map(|(alg, (old, new), m)| {
@@ -216,7 +268,7 @@ impl Prop for C19 {
     type Case = SeqCase;
     const ID: &'static str = "C19";
     fn rule() -> String {
-        "cases = (Myers|Patience, old, new) over an element type whose PartialEq counts calls; a stage of fixed inputs of 20 000-150 000 near-identical items; 1 random case in 10 uses 50-byte record items sharing a 40-byte head (so hashing/equality of long keys is exercised); families: near-identical (0-6 edits incl. block moves) up to 300 (quick) / 3000 (thorough) items over alphabets {2,4,26,10^3,10^5}, periodic with shift, reversed, truncated, unrelated, and the shared small mixture. Oracle: comparisons <= c*(N+M+1)*(D+1) with D = size of the reported script, c = 4 (Myers) / 6 (Patience); the counter aborts the run at 64x the largest possible bound so a quadratic or non-terminating change ends as a measured violation. The maximum measured ratio is reported under metrics_max. Non-trivial = N+M >= 200 and D <= (N+M)/20 (the near-linear claim); distinct = distinct serialized case.".into()
+        "cases = (Myers|Patience, old, new) over an element type whose PartialEq counts calls; a stage of fixed inputs of 20 000-150 000 near-identical items; 1 random case in 10 uses 50-byte record items sharing a 40-byte head (so hashing/equality of long keys is exercised); families: near-identical (0-6 edits incl. block moves) up to 400 (quick) / 3000 (thorough) items over alphabets {2,4,26,10^3,10^5}, periodic with shift, reversed, truncated, unrelated, the shared small mixture, sequences in which every value occurs 1-3 times a few positions apart (interleaved copies), a block followed by the same values rearranged (second occurrences far away), and 1200-3200 (thorough: 9000-24000) items with 20-200 (400) scattered single-item edits on periodic or random content. Oracle: comparisons <= c*(N+M+1)*(D+1) with D = size of the reported script, c = 4 (Myers) / 6 (Patience); the counter aborts the run at 64x the largest possible bound so a quadratic or non-terminating change ends as a measured violation. The maximum measured ratio is reported under metrics_max. Non-trivial = N+M >= 200 and D <= (N+M)/20 (the near-linear claim); distinct = distinct serialized case.".into()
     }
     fn assumptions() -> Vec<String> {
         vec!["the constants are calibrated (measured maxima about 0.7 Myers / 1.6 Patience), not derived: the check decides 'within c x of the documented O((N+M)D)'".into()]
